@@ -2,6 +2,7 @@
 From Coq Require Import Lia Sorting.Permutation String.
 From RM Require Import C13.Model C13.Proofs C13.Linux C13.ProofsLinux C13.ProofsLimits C13.Sites.
 From RM Require C12.Model C12.Proofs C13.Sched C13.ProofsSched.
+From RM Require Import C13.Adaptive C13.ProofsAdaptive C13.Budget C13.ProofsBudget.
 Open Scope string_scope.
 Open Scope list_scope.
 Open Scope Z_scope.
@@ -227,6 +228,110 @@ Theorem c13_shared_state_sites_modelled : RM.Gen.C13Sites.shared_state_sites = m
 Proof. reflexivity. Qed.
 Print Assumptions c13_shared_state_sites_modelled.
 
+(* ---- round 5: ADAPTIVE walks (the next lookup is chosen from the answers received so far) *)
+(* for EVERY schedule, finished or not, the adaptive system is C12's fixed-list system on the paths that the supplier's
+   answers select: same Symbolizer state (slots, counters, supplier log, stats map, every thread's answer log), same
+   position of every task, same quiescence *)
+Theorem c13_adaptive_refines_fixed_model :
+  forall (F : Type) (c : C12.Model.config) (d : F) (atasks : list (@atask F)) (sched : list C12.Model.task),
+  ash (arun c d atasks sched) = C12.Model.sh (C12.Model.run (fixed c atasks) sched) /\
+  (forall t, C12.Model.pcs (C12.Model.run (fixed c atasks) sched) t =
+             (apath (C12.Model.outc c) (fst (apcs (arun c d atasks sched) t)), snd (apcs (arun c d atasks sched) t))) /\
+  aall_done (length atasks) (arun c d atasks sched) =
+    C12.Model.all_done (fixed c atasks) (C12.Model.run (fixed c atasks) sched).
+Proof. intros F c d atasks sched. exact (adaptive_refines c d atasks sched). Qed.
+Print Assumptions c13_adaptive_refines_fixed_model.
+
+(* what every adaptive walk returns, under every schedule that lets all walks finish: the value at the end of the path
+   that the supplier's answers select — a function of the tree and of the answers, with no schedule in it *)
+Theorem c13_adaptive_walks_determined :
+  forall (F : Type) (c : C12.Model.config) (d : F) (atasks : list (@atask F)) (sched : list C12.Model.task),
+  aall_done (length atasks) (arun c d atasks sched) = true ->
+  aprocess_threads c d atasks sched = map (fun a => Some (aeval (C12.Model.outc c) a)) atasks.
+Proof. intros F c d atasks sched. exact (aprocess_determined c d atasks sched). Qed.
+Print Assumptions c13_adaptive_walks_determined.
+
+Theorem c13_adaptive_walks_schedule_independent :
+  forall (F : Type) (c : C12.Model.config) (d : F) (atasks : list (@atask F)) (s1 s2 : list C12.Model.task),
+  aall_done (length atasks) (arun c d atasks s1) = true -> aall_done (length atasks) (arun c d atasks s2) = true ->
+  aprocess_threads c d atasks s1 = aprocess_threads c d atasks s2.
+Proof. intros F c d atasks s1 s2. exact (adaptive_threads_independent c d atasks s1 s2). Qed.
+Print Assumptions c13_adaptive_walks_schedule_independent.
+
+(* the answers an adaptive thread received: exactly its path, each key with the supplier's answer *)
+Theorem c13_adaptive_answers_determined :
+  forall (F : Type) (c : C12.Model.config) (d : F) (atasks : list (@atask F)) (sched : list C12.Model.task) (t : nat),
+  aall_done (length atasks) (arun c d atasks sched) = true -> (t < length atasks)%nat ->
+  C12.Model.results (ash (arun c d atasks sched)) t =
+    map (fun k => (k, C12.Model.outc c k)) (apath (C12.Model.outc c) (nth t atasks (ADone d))).
+Proof. intros F c d atasks sched t. exact (adaptive_answers c d atasks sched t). Qed.
+Print Assumptions c13_adaptive_answers_determined.
+
+(* the stats snapshot after adaptive walks (which modules were asked for now depends on the answers) *)
+Theorem c13_adaptive_stats_independent :
+  forall (F : Type) (c : C12.Model.config) (d : F) (atasks : list (@atask F)) (s1 s2 : list C12.Model.task) (leafname : nat),
+  C13.Sched.leaf_injective (fixed c atasks) ->
+  aall_done (length atasks) (arun c d atasks s1) = true -> aall_done (length atasks) (arun c d atasks s2) = true ->
+  C12.Model.stats (ash (arun c d atasks s1)) leafname = C12.Model.stats (ash (arun c d atasks s2)) leafname.
+Proof. intros F c d atasks s1 s2 leafname. exact (adaptive_stats_independent c d atasks s1 s2 leafname). Qed.
+Print Assumptions c13_adaptive_stats_independent.
+
+(* ---- round 5: what a future does after its walk_stack, on state shared by all the futures (C13/Budget.v) *)
+(* if the post-walk steps of different futures commute, every completion order of the n walks leaves the same thread
+   list and the same shared state *)
+Theorem c13_post_walk_commuting_independent :
+  forall (S F : Type) (post : S -> nat -> F -> S * F) (frames : nat -> F) (n : nat) (s : S) (c1 c2 : list nat),
+  posts_commute post -> Permutation c1 (seq 0 n) -> Permutation c2 (seq 0 n) ->
+  finish_threads post n frames s c1 = finish_threads post n frames s c2 /\
+  fst (finish post frames s c1 (fun _ => None)) = fst (finish post frames s c2 (fun _ => None)).
+Proof. intros S F post frames n s c1 c2. exact (finish_threads_commute post frames n s c1 c2). Qed.
+Print Assumptions c13_post_walk_commuting_independent.
+
+(* today's code: the post-walk statements write nothing shared (c13_walk_future_* below): slot i = future i's own step
+   on its own frames, for every completion order that contains every index *)
+Theorem c13_post_walk_readonly_independent :
+  forall (S F : Type) (post : S -> nat -> F -> S * F) (frames : nat -> F) (n : nat) (s : S) (comp : list nat),
+  post_readonly post -> (forall i, (i < n)%nat -> In i comp) ->
+  finish_threads post n frames s comp = map (fun i => Some (snd (post s i (frames i)))) (seq 0 n).
+Proof. intros S F post frames n s comp. exact (finish_threads_readonly post frames n s comp). Qed.
+Print Assumptions c13_post_walk_readonly_independent.
+
+(* seeded C13-8 and its class: a per-dump budget that the walks charge as they FINISH hands the truncation to whichever
+   walk finishes later — two completion orders, two thread lists; the budget steps do not commute *)
+Theorem c13_frame_budget_refuted :
+  (exists (frames : nat -> list nat) (left : nat) (c1 c2 : list nat),
+     Permutation c1 (seq 0 2) /\ Permutation c2 (seq 0 2) /\
+     finish_threads budget_post 2 frames left c1 <> finish_threads budget_post 2 frames left c2) /\
+  ~ posts_commute (@budget_post nat).
+Proof.
+  split; [|exact budget_not_commute].
+  exists (fun _ => [7; 7]%nat), 3%nat, [0; 1]%nat, [1; 0]%nat.
+  split; [apply Permutation_refl|]. split; [apply perm_swap|].
+  destruct budget_depends as [A B]. rewrite A, B. discriminate.
+Qed.
+Print Assumptions c13_frame_budget_refuted.
+
+(* ---- round 5: every cell writable through a shared reference, and everything the per-thread future shares with its
+   siblings, is one of the enumerated, classified sites *)
+Theorem c13_interior_mutable_sites_modelled :
+  RM.Gen.C13Sites.interior_mutable_sites = map fst modelled_interior_mutable_sites.
+Proof. reflexivity. Qed.
+Print Assumptions c13_interior_mutable_sites_modelled.
+
+Theorem c13_walk_future_captures_modelled :
+  RM.Gen.C13Sites.walk_future_captures = map fst modelled_walk_future_captures.
+Proof. reflexivity. Qed.
+Print Assumptions c13_walk_future_captures_modelled.
+
+(* the statements of the future in order; exactly one of them awaits (walk_stack), none after it touches a cell *)
+Theorem c13_walk_future_steps_modelled :
+  RM.Gen.C13Sites.walk_future_steps = map fst modelled_walk_future_steps /\
+  RM.Gen.C13Sites.walk_future_interior_mutations = [] /\
+  map snd (filter (fun e => match snd e with SymbolizerC12 => true | _ => false end) modelled_walk_future_steps) = [SymbolizerC12] /\
+  forallb (fun e => match snd e with OwnSlotOnly | ReporterOnly | SymbolizerC12 => true | _ => false end) modelled_walk_future_steps = true.
+Proof. repeat split. Qed.
+Print Assumptions c13_walk_future_steps_modelled.
+
 (* the ASCII constants of the model are the words they stand for, and the byte table is the string table *)
 Theorem c13_constants_spelled :
   N_ID = bytes_of_string "id" /\ N_RELEASE = bytes_of_string "release" /\ N_CODENAME = bytes_of_string "codename" /\
@@ -282,3 +387,34 @@ Example c13_nonvacuous_in_place :
   run_events e1 [10; 20; 30] = [22; 40; 32] /\ run_events e2 [10; 20; 30] = [22; 40; 32] /\
   collect_unordered (fun i => nth i [22; 40; 32] 0) [2%nat; 0%nat; 1%nat] = [32; 22; 40].
 Proof. repeat split. Qed.
+
+(* two adaptive walks: thread 0 asks for module 0 and, depending on the answer, for module 1 or module 2; thread 1 asks for
+   module 2, then 0.  The supplier suspends; two very different schedules finish and agree; module 1 is never asked for *)
+Example c13_nonvacuous_adaptive :
+  let c := {| C12.Model.tasks := []; C12.Model.susp := fun k => match k with O => 2%nat | _ => 1%nat end;
+              C12.Model.outc := fun k => match k with O => C12.Model.OOk | _ => C12.Model.ONotFound end;
+              C12.Model.leaf := fun k => k |} in
+  let a0 := AAsk 0%nat (fun o => match o with
+                                 | C12.Model.OOk => AAsk 2%nat (fun o2 => ADone (if C12.Model.stat_loaded o2 then 11 else 12))
+                                 | _ => AAsk 1%nat (fun _ => ADone 13) end) in
+  let a1 := AAsk 2%nat (fun _ => AAsk 0%nat (fun o => ADone (if C12.Model.stat_loaded o then 21 else 22))) in
+  let s1 := [0; 0; 0; 0; 0; 1; 1; 1]%nat in
+  let s2 := [1; 0; 1; 0; 1; 0; 1; 0; 1; 0; 1; 0]%nat in
+  aall_done 2 (arun c 0 [a0; a1] s1) = true /\ aall_done 2 (arun c 0 [a0; a1] s2) = true /\
+  aprocess_threads c 0 [a0; a1] s1 = [Some 12; Some 21] /\ aprocess_threads c 0 [a0; a1] s2 = [Some 12; Some 21] /\
+  C12.Model.tasks (fixed c [a0; a1]) = [[0; 2]; [2; 0]]%nat /\
+  C12.Model.stats (ash (arun c 0 [a0; a1] s2)) 1%nat = None /\
+  C12.Model.calls (ash (arun c 0 [a0; a1] s1)) <> C12.Model.calls (ash (arun c 0 [a0; a1] s2)).
+Proof. cbv zeta. repeat split; try (vm_compute; reflexivity). vm_compute. discriminate. Qed.
+
+(* three walks finishing in two different orders: the read-only post-walk step (mark the frames of thread i with i) gives
+   one thread list, the first-come-first-served budget gives two *)
+Example c13_nonvacuous_post_walk :
+  let frames := (fun i : nat => repeat i (2 + i))%nat in
+  let ro := (fun (s : nat) (i : nat) (f : list nat) => (s, i :: f)) in
+  post_readonly ro /\
+  finish_threads ro 3 frames 5%nat [2; 0; 1]%nat = finish_threads ro 3 frames 5%nat [0; 1; 2]%nat /\
+  finish_threads ro 3 frames 5%nat [2; 0; 1]%nat = [Some [0; 0; 0]; Some [1; 1; 1; 1]; Some [2; 2; 2; 2; 2]]%nat /\
+  finish_threads budget_post 3 frames 5%nat [2; 0; 1]%nat = [Some [0]; Some [1]; Some [2; 2; 2; 2]]%nat /\
+  finish_threads budget_post 3 frames 5%nat [0; 1; 2]%nat = [Some [0; 0]; Some [1; 1; 1]; Some [2]]%nat.
+Proof. cbv zeta. split; [intros s i f; reflexivity|]. repeat split. Qed.
